@@ -31,6 +31,8 @@ class Run:
         self.rule = ""
         self.exhaustive = False
         self.extra_nontrivial = 0
+        import shutil
+        shutil.rmtree(os.path.join(common.REPLAYS, prop), ignore_errors=True)
 
     # ---- model checking --------------------------------------------------------------
     def model(self, module, cfg, workers=None, simulate=None, timeout=3600, xmx="8g", expect_violation=False):
